@@ -114,8 +114,22 @@ def automaton_case(ctx, idx, rng):
     t0, t1 = (0, 1) if rng.random() < 0.8 else (1, 0)
     if rng.random() < 0.1:
         t1 = t0          # both terminals the same state (pure loops)
-    nodes = [ptn.AutOpNode(i, [], [], 0) for i in range(nn)]
-    au = ptn.AutOp(nodes, [], [t0, t1])
+    # state labels: 0..n-1, or arbitrary distinct ids (negative ones included: hash(-1) == hash(-2)); node list in ascending, descending or shuffled order
+    lab_kind = str(rng.choice(['range', 'range', 'arbitrary', 'negative']))
+    if lab_kind == 'range':
+        labels = list(range(nn))
+    elif lab_kind == 'negative':
+        labels = [int(x) for x in rng.permutation(np.arange(-nn, 0))]
+    else:
+        labels = [int(x) for x in rng.choice(np.arange(-3, 40), size=nn, replace=False)]
+    order_kind = str(rng.choice(['ascending', 'shuffled', 'descending']))
+    order = sorted(range(nn), key=lambda k: labels[k])
+    if order_kind == 'descending':
+        order = order[::-1]
+    elif order_kind == 'shuffled':
+        order = [int(x) for x in rng.permutation(nn)]
+    nodes = [ptn.AutOpNode(labels[k], [], [], 0) for k in order]
+    au = ptn.AutOp(nodes, [], [labels[t0], labels[t1]])
     espec = []
     eid = [int(rng.integers(0, 3))]
 
@@ -141,7 +155,7 @@ def automaton_case(ctx, idx, rng):
             opics = (lambda i, b=base: [(o, c * (2.0 if i % 2 else 0.5)) for o, c in b])
             act = (lambda i, lo=lo: i >= lo)
             f_op, f_act = opics, act
-        au.add_connect_edge(ptn.AutOpEdge(eid[0], [a, b], opics, act))
+        au.add_connect_edge(ptn.AutOpEdge(eid[0], [labels[a], labels[b]], opics, act))
         eid[0] += int(rng.integers(1, 3))
         espec.append((a, b, f_op, f_act))
     # planted path of the requested length (always-active edges), then random extra edges
@@ -171,8 +185,8 @@ def automaton_case(ctx, idx, rng):
         return
     ref = refs.poly_clean(polys[t1])
     kinds = sorted({('loop' if a == b else 'edge') for a, b, _, _ in espec})
-    ctx.case(('automaton', f'L{min(L, 4)}', f'n{nn}', 'same-terminals' if t0 == t1 else 'distinct-terminals') + tuple(kinds) + (f'edges{min(len(espec), 8)}',),
-             sample={'L': L, 'nodes': nn, 'terminals': [t0, t1], 'edges': [(a, b) for a, b, _, _ in espec]},
+    ctx.case(('automaton', f'L{min(L, 4)}', f'n{nn}', 'same-terminals' if t0 == t1 else 'distinct-terminals', 'ids-' + lab_kind, 'nodes-' + order_kind) + tuple(kinds) + (f'edges{min(len(espec), 8)}',),
+             sample={'L': L, 'node_ids_in_list_order': [labels[k] for k in order], 'terminals': [labels[t0], labels[t1]], 'edges': [(labels[a], labels[b]) for a, b, _, _ in espec]},
              info={'L': L, 'nodes': nn, 'terminals': [t0, t1], 'edges': [(a, b, [f(i) for i in range(L)], [bool(g(i)) for i in range(L)]) for a, b, f, g in espec]})
     detail = ctx.cur_info
     g = ptn.OpGraph.from_automaton(au, L)
